@@ -54,7 +54,17 @@ func standaloneProduct(maxN int, visit func(idx int, sc *scen.Scenario, sig stri
 }
 
 func init() {
-	register(&Engine{Prop: "C01", Doc: "node lifecycle", Run: runC01, Replay: func(c *Cfg, s json.RawMessage) { replayScenario(c, "C01", s) }})
+	register(&Engine{Prop: "C01", Doc: "node lifecycle", Run: runC01, Replay: func(c *Cfg, s json.RawMessage) {
+		var fc FnCase
+		if json.Unmarshal(s, &fc) == nil && fc.Family == "fallback-hands-back-an-error-result" {
+			for _, f := range runFnCase(&fc) {
+				fmt.Printf(" * finding %s: %s\n", f.key, f.detail)
+				c.Rep.Violate("C01", "C01:fallback-error-result:"+f.key, f.detail, fc)
+			}
+			return
+		}
+		replayScenario(c, "C01", s)
+	}})
 	register(&Engine{Prop: "C02", Doc: "retry budget and fallback", Run: runC02, Replay: replayC02})
 }
 
@@ -86,6 +96,22 @@ func runC01(c *Cfg) {
 		}
 	})
 	hugeBudgetCases(c, "C01")
+	// a rescuing fallback may hand back an error RESULT (with a nil error): the exec phase then "produced a result
+	// without error", so post runs, once, and receives that result
+	for st := 0; st < 8; st++ {
+		for _, build := range []string{"options", "builder", "mixed"} {
+			for _, ctxk := range []string{"single", "flow"} {
+				for _, rt := range []int{0, 3} {
+					fc := &FnCase{Family: "fallback-hands-back-an-error-result", PrepR: st&1 != 0, ExecR: st&2 != 0, PostR: st&4 != 0, Build: build, Context: ctxk, P: 3, E: 5, FB: true, FBResult: true, FBErrResult: true, Retries: rt}
+					for _, f := range runFnCase(fc) {
+						r.Violate("C01", "C01:fallback-error-result:"+f.key, "every exec attempt failed and the fallback returned (NewErrorResult(e), nil): "+f.detail, fc)
+					}
+					r.Eval()
+					r.Count("fallback_error_result.cases", 1)
+				}
+			}
+		}
+	}
 	// payloads of the library's own Action type: data like any other — post alone decides the action
 	ap := actionPayloadCases()
 	parallel(c, len(ap), func(i int) {
@@ -265,6 +291,29 @@ func runC02(c *Cfg) {
 			r.Nontrivial("dl:" + scenSig(dl[i]))
 			break
 		}
+	})
+	// every failing attempt returns the very same error value / wraps the previous attempt's error / is a
+	// "permanent" (Temporary() == false) error, with a (short) retry wait: the budget is the budget
+	var sv []*scen.Scenario
+	for kind := 0; kind < scen.NumScriptedKinds; kind++ {
+		if !scen.KindHasRetry(kind) {
+			continue
+		}
+		for _, ek := range []int{scen.ESameValue, scen.EChained, scen.ENotTemporary, scen.ETemporary} {
+			for _, n := range []int{3, 4} {
+				for _, k := range []int{2, 3, n, n + 1} {
+					for _, w := range []int{0, 1} {
+						ns := scen.NodeSpec{Kind: kind, N: n, HasFB: (kind+k)%2 == 0, ErrKind: ek, WaitMs: w, Visits: []scen.Visit{{FirstOK: k, FBErr: k%2 == 0, Post: "go"}}}
+						sv = append(sv, &scen.Scenario{Nodes: []scen.NodeSpec{ns}, Root: 0, Runs: 1})
+					}
+				}
+			}
+		}
+	}
+	parallelN(c, len(sv), 32, func(i int) {
+		judgeFor(c, "C02", "error-value-patterns", sv[i])
+		r.Count("error_value_patterns.cases", 1)
+		r.Nontrivial("sv:" + scenSig(sv[i]))
 	})
 	hugeBudgetCases(c, "C02")
 	// flows with a retry budget of their own around retrying, always-failing nodes: every activation of the inner
